@@ -128,3 +128,49 @@ Theorem C11_call_before_put_is_a_schedule : forall (H : bytes -> bytes) id chunk
     finished (fst st) = true /\ sfiles (snd st) = fs' /\ map results (fst st) = [[XPut r]; [b]].
 Proof. exact put_cb_before_is_a_schedule. Qed.
 Print Assumptions C11_call_before_put_is_a_schedule.
+
+(* ------------------------------------------------------------------ *)
+(* The programs whose interleavings the theorems above quantify over are what the source does:
+   Cache.Get / GetBytes and Cache.putIndexEntry, WHOLE functions translated in world mode
+   (Gen/CacheWorldSrc.v: every operating-system call an uninterpreted operation on an abstract
+   world), equal run_prog of get_prog / get_bytes_prog / put_index_body for every world and every
+   behaviour of the operations (premises: SrcWorld.read_contract, always_fresh). *)
+From GI Require Import Lib.GoSemWorld Lib.GoSemWorldVal Cache.SrcLib Cache.SrcWorld Gen.CacheWorldSrc Cache.SrcWorldFacts Cache.SrcWorldGet.
+
+Theorem C11_source_world_get : forall (OS : os_ops), read_contract OS -> always_fresh OS ->
+  forall fuel (w : World OS) (c : cw_Cache) (id : bytes) h o,
+  length id = 32%nat -> (21 <= fuel)%nat ->
+  match run_prog OS (cw_Cache_dir c) (get_prog id) (w, h, o) with
+  | (st, r) =>
+      exists entry err,
+        cw_Cache_Get OS false fuel w c id = GoSem.Ok (st_world OS st, c, entry, err) /\ get_rel r entry err
+        /\ match r with Some (out, _, _) => length out = 32%nat | None => True end
+  end.
+Proof. exact cw_Get_eq. Qed.
+Print Assumptions C11_source_world_get.
+
+Theorem C11_source_world_get_bytes : forall (OS : os_ops) (H : bytes -> bytes), read_contract OS -> always_fresh OS ->
+  forall fuel (w : World OS) (c : cw_Cache) (id : bytes) h o,
+  length id = 32%nat -> (21 <= fuel)%nat ->
+  match run_prog OS (cw_Cache_dir c) (get_bytes_prog H id) (w, h, o) with
+  | (st, r) =>
+      exists data entry err,
+        cw_Cache_GetBytes OS H false fuel w c id = GoSem.Ok (st_world OS st, c, data, entry, err)
+        /\ get_bytes_rel r data entry err
+  end.
+Proof. exact cw_GetBytes_eq. Qed.
+Print Assumptions C11_source_world_get_bytes.
+
+Theorem C11_source_world_put_index_entry :
+  forall (OS : os_ops) (rh : bytes -> bytes) fuel (w : World OS) (c : cw_Cache) (id out : bytes) (size : Z)
+         (allow : bool) (h : Handle OS) (o : bool),
+  id <> [] -> (0 <= size)%Z ->
+  let tm := go_time_UnixNano (op_time_now OS w) in
+  match run_prog OS (cw_Cache_dir c) (put_index_body id out (Z.to_nat size) tm) (w, h, o) with
+  | (st, ok) =>
+      exists err,
+        cw_Cache_putIndexEntry OS false rh fuel w c id out size allow = GoSem.Ok (st_world OS st, c, err)
+        /\ werr_is_nil err = ok
+  end.
+Proof. exact cw_putIndexEntry_eq. Qed.
+Print Assumptions C11_source_world_put_index_entry.
